@@ -523,6 +523,11 @@ func parseAttributes(data []byte) ([]Attribute, error) {
 		offset += attrLen
 	}
 
+	// A single byte left over cannot be an attribute: the packet is malformed.
+	if offset != len(data) {
+		return nil, fmt.Errorf("trailing data after last attribute")
+	}
+
 	return attrs, nil
 }
 
